@@ -323,6 +323,7 @@ pub fn class_ql(e: &ql::Error) -> &'static str {
         E::InvalidFloat(_) => "nanfloat",
         E::InvalidDefaultValue(..) => "defaulttype",
         E::MissingUpdateField(..) => "required",
+        E::InvalidPagingValue(..) => "pagingtype",
         E::Json(_) => "json",
         _ => "other",
     }
